@@ -109,7 +109,7 @@ static int contextConv(MPT_INTERFACE(convertable) *val, MPT_TYPE(type) type, voi
 		return MPT_ENUM(TypeReplyDataPtr);
 	}
 	if (type == MPT_ENUM(TypeReplyDataPtr)) {
-		if (ptr) *((void **) ptr) = &ctx->_ctx;
+		if (ptr) *((void **) ptr) = &ctx->data;
 		return MPT_ENUM(TypeReplyPtr);
 	}
 	return MPT_ERROR(BadType);
